@@ -39,8 +39,16 @@ def generate(rng, tier):
     r = rng.random()
     backend = 'simstream' if r < 0.5 else rng.choice(ALL_BACKENDS)
     short = rng.getrandbits(32) if (backend in ('simstream', 'simpath') and rng.random() < 0.6) else None
-    return {'spec': spec, 'backend': backend, 'short_seed': short, 'debug_log': rng.random() < 0.1,
-            'raw_ts': raw_ts, 'pathlib': rng.random() < 0.3}
+    case = {'spec': spec, 'backend': backend, 'short_seed': short, 'debug_log': rng.random() < 0.1,
+            'raw_ts': raw_ts, 'pathlib': rng.random() < 0.3, 'threads': None}
+    if len(_w.data) < 3000 and rng.random() < 0.04:
+        # two threads, each reading its own file with TdmsFile.read (a thread pool mapping TdmsFile.read over paths):
+        # nothing is shared by the caller; the interleaving is decided by a seeded scheduler
+        other = gen.sibling(rng, spec)
+        other = other[0] if other is not None else gen.gen_world(rng, o)[0]
+        if len(build(other).data) < 3000:
+            case['threads'] = {'seed': rng.getrandbits(32), 'switch_p': rng.choice([0.02, 0.1, 0.3]), 'other': other}
+    return case
 
 
 def shape_sig(spec):
@@ -126,6 +134,8 @@ def execute(case):
             return res
         res.violations += compare.check_structure(tf, w, case['raw_ts'])
         res.violations += compare_channels(tf, w, case['raw_ts'], res)
+        if case.get('threads') and not res.violations:
+            res.violations += concurrent_file_reads(case, w, res)
         res.io_events = st.fs.seq
         res.steps = 1
         compare_faults = st.fs.faults_fired
@@ -139,8 +149,59 @@ def execute(case):
     return res
 
 
+def concurrent_file_reads(case, w, res):
+    import io
+    import os
+    from ..threads import Interleaver, InterleaveError
+    th = case['threads']
+    w2 = build(th['other'])
+    worlds = [w, w2]
+
+    def reader(wx):
+        def run():
+            tf = lib.TdmsFile.read(io.BytesIO(wx.data), raw_timestamps=case['raw_ts'])
+            out = {}
+            for path, ch in wx.chans.items():
+                if ch.type in (None, 'daqmx'):
+                    continue
+                out[path] = np.asarray(compare.lib_channel(tf, wx, path)[:])
+            return out
+        return run
+    il = Interleaver(th['seed'], switch_p=th['switch_p'], trace_prefix=os.path.dirname(lib.nptdms.__file__), max_switches=2000)
+    try:
+        got = il.run([reader(wx) for wx in worlds])
+    except InterleaveError as exc:
+        # a thread parked while it holds a real lock blocks the others: an artefact of forced pre-emption, not a verdict
+        res.probe('interleaver-gave-up')
+        res.skipped_ops += 1
+        return []
+    res.probe('concurrent-file-reads')
+    res.steps += il.points
+    res.ev('threads', il.trace[:40], il.points)
+    out = []
+    for k, (wx, r) in enumerate(zip(worlds, got)):
+        if r[0] == 'exc':
+            out.append(V('C01.concurrent', 'TdmsFile.read of file %d raised %s: %s while another thread was reading another file '
+                         '(%d switches); alone it succeeds' % (k, type(r[1]).__name__, r[1], il.switches), exc=type(r[1]).__name__))
+            continue
+        for path, data in r[1].items():
+            ch = wx.chans[path]
+            if not compare.same_type(data.dtype, ch.type, case['raw_ts']) and not (ch.type == 'str' and ch.count == 0):
+                continue
+            m = compare.data_mismatch(data, ch.type, ch.values, case['raw_ts'])
+            if m:
+                out.append(V('C01.concurrent', 'file %d, %s (%s): %s - read while another thread was reading another file '
+                             '(%d switches)' % (k, path, ch.type, m, il.switches), type=ch.type))
+                break
+    return out
+
+
 def shrink_candidates(case):
     from ..shrink import spec_candidates
+    if case.get('threads'):
+        c = dict(case)
+        c['threads'] = None
+        yield c
     if case['short_seed'] is not None:
         c = dict(case)
         c['short_seed'] = None
